@@ -204,6 +204,11 @@ func hasDupD(s []time.Duration) bool {
 // `defaults`) in env and sweeps the samples; returns clause/detail and the
 // number of API calls made.
 func checkValueHistogram(e *histEnv, name string, arg tally.Buckets, spec []float64) (string, string, int) {
+	return checkValueHistogramOn(e, e.root, name, arg, spec)
+}
+
+// checkValueHistogramOn creates the histogram on scope `on` (a scope under e.root).
+func checkValueHistogramOn(e *histEnv, on tally.Scope, name string, arg tally.Buckets, spec []float64) (string, string, int) {
 	steps := 0
 	orig := append([]float64{}, spec...)
 	var argCopy []float64
@@ -214,7 +219,10 @@ func checkValueHistogram(e *histEnv, name string, arg tally.Buckets, spec []floa
 	if e.rec != nil {
 		mark = len(e.rec.Log)
 	}
-	h := e.root.Histogram(name, arg)
+	h := on.Histogram(name, arg)
+	if on != e.root {
+		name = "s." + name
+	}
 	steps++
 	if vb, ok := arg.(tally.ValueBuckets); ok {
 		for i := range vb {
@@ -308,6 +316,10 @@ func refAt(ref []float64, i int) interface{} {
 }
 
 func checkDurationHistogram(e *histEnv, name string, arg tally.Buckets, spec []time.Duration) (string, string, int) {
+	return checkDurationHistogramOn(e, e.root, name, arg, spec)
+}
+
+func checkDurationHistogramOn(e *histEnv, on tally.Scope, name string, arg tally.Buckets, spec []time.Duration) (string, string, int) {
 	steps := 0
 	orig := append([]time.Duration{}, spec...)
 	var argCopy []time.Duration
@@ -318,7 +330,10 @@ func checkDurationHistogram(e *histEnv, name string, arg tally.Buckets, spec []t
 	if e.rec != nil {
 		mark = len(e.rec.Log)
 	}
-	h := e.root.Histogram(name, arg)
+	h := on.Histogram(name, arg)
+	if on != e.root {
+		name = "s." + name
+	}
 	steps++
 	if db, ok := arg.(tally.DurationBuckets); ok {
 		for i := range db {
